@@ -107,6 +107,59 @@ def gen_messages(ctx, t, n):
     return out
 
 
+DECLARED = {  # frozen: constructor argument -> (bits, signed); see Lang/MsgCodec.v ref_msg_widths
+    "InitNewAppMessage": dict(app_id=(32, False), max_qubits=(8, False)),
+    "OpenEPRSocketMessage": dict(app_id=(32, False), epr_socket_id=(32, True), remote_node_id=(32, True),
+                                 remote_epr_socket_id=(32, True), min_fidelity=(8, False)),
+    "StopAppMessage": dict(app_id=(32, False)),
+    "MsgDoneMessage": dict(msg_id=(32, False)),
+}
+
+
+def constructor_oracle(ctx, t, n):
+    """Build messages through their constructors with values from the DECLARED ranges (not the
+    regenerated ones), serialise, deserialise from bytes and from a reused writable buffer."""
+    M = t["M"]
+    rng = ctx.rng
+    for name, fields in DECLARED.items():
+        cls = getattr(M, name, None)
+        if cls is None:
+            ctx.violation("a declared message class disappeared", dict(message_class=name))
+            continue
+        deser = M.deserialize_host_msg if name != "MsgDoneMessage" else M.deserialize_return_msg
+        for _ in range(n):
+            kw = {}
+            for f, (bits, signed) in fields.items():
+                lo, hi = (-(2 ** (bits - 1)), 2 ** (bits - 1) - 1) if signed else (0, 2 ** bits - 1)
+                kw[f] = rng.choice([lo, hi, hi - 1, (hi + 1) // 2, 65536 if hi >= 65536 else hi, 70000 if hi >= 70000 else lo,
+                                    rng.randint(lo, hi)])
+            ctx.note_case(("ctor", name, tuple(sorted(kw.items()))))
+            try:
+                m = cls(**kw)
+                raw = bytes(m)
+                back = deser(raw)
+                got = {f: getattr(back, f) for f in kw}
+                ok = type(back) is cls and got == kw
+            except Exception as e:  # noqa
+                got, ok = f"raises {type(e).__name__}: {e}", False
+            if not ok:
+                ctx.violation("a message built with field values inside their declared widths does not come back with them",
+                              dict(message_class=name, constructed_with=kw, got=got))
+                continue
+            # aliasing: deserialise from a writable receive buffer, then reuse the buffer
+            buf = bytearray(raw)
+            try:
+                back = deser(buf)
+            except Exception:
+                continue  # the unchanged tree rejects bytearray for some classes: not an input of the property
+            for i in range(len(buf)):
+                buf[i] = (buf[i] + 0x55) % 256 if i else buf[i]
+            got = {f: getattr(back, f) for f in kw}
+            if got != kw:
+                ctx.violation("a deserialised message changes when the buffer it was read from is reused",
+                              dict(message_class=name, constructed_with=kw, after_buffer_reuse=got))
+
+
 def run(ctx):
     ctx.rule = ("every message class of both directions x boundary/random field values (read back from the constructed "
                 "ctypes object) ; SubroutineMessage with random bodies; ReturnArrayMessage with length 0..64 and random "
@@ -147,6 +200,7 @@ def run(ctx):
             ctx.violation("a message does not deserialise to a message of its own type",
                           dict(direction=direction, message_class=cls.__name__, deserialises_as=got), key=None)
     n = 12 if ctx.tier == "quick" else 400
+    constructor_oracle(ctx, t, 6 if ctx.tier == "quick" else 200)
     msgs = gen_messages(ctx, t, n)
     cases = {"host": [], "ret": []}
     meta = {"host": [], "ret": []}
